@@ -325,6 +325,7 @@ ROUND5 = {
  "C07": "sources whose names differ only in the case of a non-ASCII letter (distinct files: the format folds ASCII only).",
  "C08": "the file map and the listing after every step against Model.C08Read (c08map, c08list); patch entries that do not parse (signature / digest-block signature altered, cut inside the header) and three-level chains (base, patch, patch over patch; lower patch intact, unparseable, altered) against readFile of the model; two archives whose names differ only in the case of a non-ASCII letter under three priority orders.",
  "C09": "two more generations at the same path: an archive without (listfile) and one whose external listfile names only every second member.",
+ "C13": "the five (count, offset) pairs in the header of every written skin and the file size against Model.C13Skin's section layout.",
  "C16": "the header of every encoded file through Model.C16Header, every one of its first 28 bytes replaced by boundary values, truncations at every field boundary (header error classes are read from the parser's error context; a header the parser accepted but whose content it refused is counted, not compared).",
  "C18": "file-id tables of 1..12 sections in well-formed files; the MPHD payload, the first three MODF entries and three MAIN entries of every written file against Lib.Record's encoding of the object's field values (op rec).",
  "C14": "the offsets recorded in the water chunk of every written file (256 headers and all instance records, read from the bytes) against Model.C14Water's layout; 40/400 water-only tiles with bitmap-only, vertex-only, bare and attribute-only entries.",
